@@ -358,7 +358,19 @@ func c06Scenarios(tier string) []*Scenario {
 		if tier != "thorough" && !(n == "addr-e164" || n == "unknown" || n == "ipv4" || n == "group-of-all" || n == "utf8") {
 			continue
 		}
-		out = append(out, c06Sched(n, wires[i], bound))
+		b := bound
+		if tier == "thorough" {
+			// the schedule space does not depend on the retained shape (3.06e6 executions each at
+			// bound 4): the shapes added later for the sequential histories - deep nestings, whose
+			// renderings are cubic in depth, and the group widths - are scheduled at a lower bound
+			switch {
+			case strings.HasPrefix(n, "group-nested-"):
+				b = 2
+			case strings.HasPrefix(n, "group-of-") && n != "group-of-all" && n != "group-of-16-members":
+				b = 3
+			}
+		}
+		out = append(out, c06Sched(n, wires[i], b))
 	}
 	return out
 }
